@@ -1,0 +1,17 @@
+//go:build verif
+
+package main
+
+// Contracts for the verification tooling (build tag "verif"). Comment-only: never compiled into the daemon.
+
+//@ ghost g_fatal : Bool
+//@ ghost g_sigctx : Int
+
+//@ func mainWithError
+//@   ensures[ret] result == g_run_ret
+//@   ensures[ctx] g_run_ctx == g_sigctx && g_sigctx != 0
+
+//@ func main
+//@   requires !g_fatal
+//@   ensures[fatal] g_run_ret != 0
+//@   ensures[clean] !g_fatal ==> g_run_ret == 0
